@@ -40,7 +40,7 @@ Probe(fn, base, st, typ, adv, stream) ==
 Steps(sl, structural, swaps, ins) ==
   SeqMap(LAMBDA w : [kind |-> "swap", off |-> w.off, la |-> w.la, lb |-> w.lb], swaps) \o ins \o
   (IF sl.off THEN SeqMap(LAMBDA k : [kind |-> "transient_resign_after_offline_edit", k |-> k, mask |-> (IF k = 0 THEN 64 ELSE 1)], << 0, 1, 2, 3 >>) ELSE << >>) \o
-  << [kind |-> "none"], [kind |-> "replace_sig"], [kind |-> "swap_idkey"], [kind |-> "resign_after_edit", off |-> sl.sigoff - 3] >>
+  << [kind |-> "none"], [kind |-> "edit_value_after_verify"], [kind |-> "replace_sig"], [kind |-> "swap_idkey"], [kind |-> "resign_after_edit", off |-> sl.sigoff - 3] >>
   \o (IF sl.off THEN << [kind |-> "forge_offline"], [kind |-> "transplant_offline"], [kind |-> "wrong_scheme"] >> ELSE << >>)
   \o SeqMap(LAMBDA p : [kind |-> "flip", off |-> p, mask |-> 1], FlipPositions(sl, structural))
   \o SeqMap(LAMBDA p : [kind |-> "flip", off |-> p, mask |-> 128], SubSeq(FlipPositions(sl, structural), 1, 6) \o structural)
